@@ -1046,6 +1046,17 @@ def check_sample(ctx, case):
         alive.append((sub, stext, out[0], out[1], out[2], out[3], _snapshot(_products(ctx, out[0], stext))))
         if mode == 'other_shared_env':
             env = out[1]     # the judged calculation edits this environment object in place and uses it
+    if sample is not None and int(case['mass'] * 1e6) % 2 == 0:
+        # calculations the library refuses or that fail part-way on the judged object (a rest time far before the end
+        # of the irradiation, an exposure below zero), caught by the caller: the judged calculation is a new one
+        A = _state['A']
+        for kw in ({'exposure': 1, 'rest_times': (0, -1e6)}, {'exposure': -5.0, 'rest_times': (0,)},
+                   {'exposure': 1, 'rest_times': ('soon',)}):
+            try:
+                sample.calculate_activation(A.ActivationEnvironment(fluence=1e8, Cd_ratio=0, fast_ratio=0), **kw)
+                ctx.count('sample.refused_calculation.answered')
+            except Exception:
+                ctx.count('sample.refused_calculation.refused')
     out = _calculate_sample(ctx, case, sample=sample, env=env)
     if out is None:
         return
